@@ -1,13 +1,331 @@
-import PPLV.WR.BoxTransProofsBase
+import PPLV.WR.BoxTransProofsPropagate
+import PPLV.WR.BoxTransProofsImage3
+import PPLV.WR.BoxTransProofsImage2
+import PPLV.WR.BoxTransProofsLhs
+import PPLV.WR.BoxTransProofsLattice
+import PPLV.WR.BoxTransProofsExactRefine
+import PPLV.WR.BoxTransProofsFails2
+import PPLV.WR.BoxTransProofsExactImage
+import PPLV.WR.BoxTransProofsBapre
 /-!
-# C03 stage 4 — Box<ITV> transformers (preliminary: the proof families are being assembled)
+# C03 stage 4 — the transformers of `Box<ITV>` are sound for every interval policy and every rounding
+
+Statements about the code-shaped model `PPLV/WR/BoxTrans.lean`, `BoxTrans2.lean` of
+`/repo/src/Box_templates.hh`, `Box_inlines.hh` (a box = the list of intervals of the C12 model
+`PPLV/Interval/Model.lean` + the status bits `EMPTY`, `EMPTY_UP_TO_DATE`), for **every**
+instantiation `cfg : Cfg` whose two directed roundings (boundary type, temporaries of
+`propagate_constraint_no_check`) satisfy the C12 hypothesis `Rounding.Sound`
+(`down q ≤ q ≤ up q`, overflow to the infinity of the direction): `Cfg.mpq` (`Rational_Box`),
+`Cfg.mpz` (`Z_Box`), `Cfg.int8` (`Int8_Box`, `long long` temporaries), `Cfg.dbl` (`Double_Box`).
+
+`Box.mem p b x` : the point `x` is in γ(b) — `b` is not marked empty and every coordinate lies in
+its interval.  Every soundness theorem has the form "the exact result point is in γ(result)";
+since membership requires *not marked empty*, each of them also says that the result is marked
+empty only if the exact result is empty.
+
+Two clauses are FALSE of the code as it is (genuine defects found by this stage, both confirmed on
+the real library, open findings KF-C03-64…72):
+
+* `propagate_constraint_no_check` rounds the *coefficients* into the temporary type in the
+  direction meant for the bound: with a coefficient that the temporaries cannot represent
+  (`double`: beyond 53 bits) the refined bound cuts points — `box_refine_sound_fails` on
+  `Double_Box`; the theorems carry the exact side condition `CoeffsExact` (every coefficient of
+  the constraint is a value of the temporary type; always true for `mpq_class`/`mpz_class`), and
+  the transformers that refine internally (`bounded_affine_image`, the non-invertible
+  `generalized_affine_preimage`, the `(lhs, relsym, rhs)` forms) take `RefineSound cfg`
+  (`box_refine_sound_of_int_exact`), with a `_fails` witness each;
+* `propagate_constraint` on the tautology `0 == 0` marks the box empty
+  (`box_propagate_trivial_eq_fails`).
 -/
+set_option linter.unusedVariables false
 namespace C03
 open PPLV.Interval PPLV.WR.BoxT
+open PPLV.Interval.ExtRat (ninf fin pinf)
 
-theorem box_cfg_mpq_sound : Cfg.mpq.Sound := Cfg.mpq_sound
-theorem box_cfg_mpz_sound : Cfg.mpz.Sound := Cfg.mpz_sound
-theorem box_cfg_int8_sound : Cfg.int8.Sound := Cfg.int8_sound
-theorem box_cfg_dbl_sound : Cfg.dbl.Sound := Cfg.dbl_sound
+/-! ## the four instantiations satisfy the hypotheses -/
+
+theorem box_cfg_sound : Cfg.mpq.Sound ∧ Cfg.mpz.Sound ∧ Cfg.int8.Sound ∧ Cfg.dbl.Sound :=
+  ⟨Cfg.mpq_sound, Cfg.mpz_sound, Cfg.int8_sound, Cfg.dbl_sound⟩
+
+/-- exact temporaries (`mpq_class`, `mpz_class`) hold every integer -/
+theorem box_int_exact : IntExact Cfg.mpq.TR ∧ IntExact Cfg.mpz.TR := ⟨intExact_id, intExact_int⟩
+
+/-! ## `add_constraint`, `refine_with_constraint(s)`, `propagate_constraint(s)` -/
+
+/-- `add_constraint_no_check` (interval constraints only; `none` = the exception): full strength -/
+theorem box_add_constraint_sound (cfg : Cfg) (hS : cfg.Sound) (b b' : Box) (c : Con) (x : Nat → Rat)
+    (hwf : c.e.WF b.dim) (h : addConstraintNoCheck cfg b c = some b') (hx : b.mem cfg.p x) (hc : c.holds x) :
+    b'.mem cfg.p x := addConstraintNoCheck_sound hS hwf h hx hc
+
+example : (addConstraintNoCheck Cfg.mpq (Box.univ Policy.rational 1) ⟨⟨[2], -3⟩, .gt⟩).isSome = true := by decide +kernel
+
+/-- `refine_with_constraint`: every point of γ(box) satisfying `c` is in γ(result) (so the result is
+marked empty only if no such point exists).  `_partial`: for a constraint that is *propagated* (two
+or more variables) the coefficients must be values of the temporary type — exactly the class where
+`box_refine_sound_fails` shows the clause false; interval and trivial constraints: no condition. -/
+theorem box_refine_sound_partial (cfg : Cfg) (hS : cfg.Sound) (b : Box) (c : Con) (x : Nat → Rat)
+    (hwf : c.e.WF b.dim) (hex : extractIntervalConstraint c = none → CoeffsExact cfg.TR c.e)
+    (hx : b.mem cfg.p x) (hc : c.holds x) : (refineWithConstraint cfg b c).mem cfg.p x :=
+  refineWithConstraint_sound hS hwf hex hx hc
+
+/-- the real `Double_Box`: `A ∈ [0,+∞)`, `B ∈ [1,1]` refined with `A − (2^53+1)·B ≥ 0` becomes
+`A ∈ (2^53+2, +∞)`; the point `(2^53+1, 1)` satisfies the constraint and is lost (KF-C03-65) -/
+theorem box_refine_sound_fails :
+    ¬ (∀ (b : Box) (c : Con) (x : Nat → Rat), c.e.WF b.dim → b.mem Cfg.dbl.p x → c.holds x →
+      (refineWithConstraint Cfg.dbl b c).mem Cfg.dbl.p x) := refineWithConstraint_sound_fails
+
+/-- the witness is outside the side condition, and the model computes what the library computes -/
+example : ¬ CoeffsExact Cfg.dbl.TR failCon.e := failCon_not_coeffsExact
+example : refineWithConstraint Cfg.dbl failBox failCon = failRes := fail_compute
+
+/-- for exact temporaries the clause holds at full strength (`Rational_Box`, `Z_Box`) -/
+theorem box_refine_sound_of_int_exact (cfg : Cfg) (hS : cfg.Sound) (h : IntExact cfg.TR) : RefineSound cfg :=
+  refineSound_of_intExact hS h
+
+example : RefineSound Cfg.mpq ∧ RefineSound Cfg.mpz := ⟨refineSound_mpq, refineSound_mpz⟩
+
+/-- `refine_with_constraints` (stops at the first constraint that marks the box empty) -/
+theorem box_refine_constraints_sound_partial (cfg : Cfg) (hS : cfg.Sound) (b : Box) (cs : List Con) (x : Nat → Rat)
+    (hwf : ∀ c ∈ cs, c.e.WF b.dim)
+    (hex : ∀ c ∈ cs, extractIntervalConstraint c = none → CoeffsExact cfg.TR c.e)
+    (hx : b.mem cfg.p x) (hc : ∀ c ∈ cs, c.holds x) : (refineWithConstraints cfg b cs).mem cfg.p x :=
+  refineWithConstraints_sound hS hwf hex hx hc
+
+/-- `propagate_constraints(cs, max_iterations)`: for EVERY number of iterations (every `fuel`, every
+`max_iterations`), all four sign blocks, every rounding of the temporaries.  `_partial`: `CoeffsExact`
+(see above) and no constraint is the tautology `0 == 0` (`box_propagate_trivial_eq_fails`). -/
+theorem box_propagate_sound_partial (cfg : Cfg) (hS : cfg.Sound) (fuel maxIter : Nat) (b : Box) (cs : List Con)
+    (x : Nat → Rat) (hwf : ∀ c ∈ cs, c.e.WF b.dim) (hex : ∀ c ∈ cs, CoeffsExact cfg.TR c.e)
+    (hnt : ∀ c ∈ cs, ¬ (c.e.terms = [] ∧ c.ty = .eq ∧ c.e.inhom = 0))
+    (hx : b.mem cfg.p x) (hc : ∀ c ∈ cs, c.holds x) : (propagateConstraints cfg fuel b cs maxIter).mem cfg.p x :=
+  propagateConstraints_sound hS fuel maxIter hwf hex hnt hx hc
+
+/-- `propagate_constraint(c)` -/
+theorem box_propagate_constraint_sound_partial (cfg : Cfg) (hS : cfg.Sound) (b : Box) (c : Con) (x : Nat → Rat)
+    (hwf : c.e.WF b.dim) (hex : CoeffsExact cfg.TR c.e)
+    (hnt : ¬ (c.e.terms = [] ∧ c.ty = .eq ∧ c.e.inhom = 0))
+    (hx : b.mem cfg.p x) (hc : c.holds x) : (propagateConstraint cfg b c).mem cfg.p x :=
+  propagateConstraint_sound hS hwf hex hnt hx hc
+
+example : CoeffsExact Cfg.dbl.TR (⟨[3, -2, 1], 7⟩ : LinExpr) := by
+  intro a ha
+  simp only [List.mem_cons, List.not_mem_nil, or_false] at ha
+  rcases ha with rfl | rfl | rfl <;> constructor <;> decide +kernel
+
+/-- the tautology `0 == 0` marks the box empty (every instantiation; KF-C03-64) -/
+theorem box_propagate_trivial_eq_fails :
+    ¬ (∀ (b : Box) (c : Con) (x : Nat → Rat), c.e.WF b.dim → CoeffsExact Cfg.mpq.TR c.e → b.mem Cfg.mpq.p x →
+      c.holds x → (propagateConstraintNoCheck Cfg.mpq b c).mem Cfg.mpq.p x) :=
+  propagateConstraintNoCheck_trivial_eq_fails
+
+/-- exactness where the C++ documents it: a single-variable constraint on a box with exact bounds is
+the intersection with the half-space (open bounds included when the policy stores them) -/
+theorem box_refine_exact (cfg : Cfg) (hR : cfg.R = Rounding.id) (b : Box) (c : Con) (v : Nat)
+    (hso : cfg.p.storeOpen = true ∨ c.ty ≠ .gt) (hiv : extractIntervalConstraint c = some (some v))
+    (hv : v < b.dim) (hm : b.markedEmpty = false) (x : Nat → Rat) :
+    (refineWithConstraint cfg b c).mem cfg.p x ↔ (b.mem cfg.p x ∧ c.holds x) :=
+  refine_interval_exact hR hso hiv hv hm x
+
+example : extractIntervalConstraint ⟨⟨[0, -2], 5⟩, .gt⟩ = some (some 1) := by decide
+
+/-! ## `max_min`, interval evaluation, `affine_image`, `affine_preimage` -/
+
+/-- `maximize` / `minimize`: the answer bounds the expression on the box, strictly when not attained -/
+theorem box_max_min_sound (p : Policy) (b : Box) (e : LinExpr) (q : Rat) (incl : Bool) (x : Nat → Rat)
+    (hwf : e.WF b.dim) (hx : b.mem p x) :
+    ((maxMin p b e true).1 = some (q, incl) → e.eval x ≤ q ∧ (incl = false → e.eval x < q)) ∧
+    ((maxMin p b e false).1 = some (q, incl) → q ≤ e.eval x ∧ (incl = false → q < e.eval x)) :=
+  ⟨fun h => maxMin_sound_max hwf h hx, fun h => maxMin_sound_min hwf h hx⟩
+
+/-- the interval evaluation of `expr / denominator` encloses the value at every point of the box -/
+theorem box_eval_expr_sound (cfg : Cfg) (hS : cfg.Sound) (b : Box) (e : LinExpr) (den : Int) (x : Nat → Rat)
+    (hwf : e.WF b.dim) (hd : den ≠ 0) (hx : b.mem cfg.p x) :
+    (evalExprIv cfg b.seq e den).mem cfg.p (e.eval x / (den : Rat)) := evalExprIv_sound hS hwf hd hx
+
+/-- `affine_image(var, expr, den)`: full strength, every policy, every rounding -/
+theorem box_affine_image_sound (cfg : Cfg) (hS : cfg.Sound) (b : Box) (v : Nat) (e : LinExpr) (den : Int)
+    (x : Nat → Rat) (hv : v < b.dim) (hwf : e.WF b.dim) (hd : den ≠ 0) (hx : b.mem cfg.p x) :
+    (affineImage cfg b v e den).mem cfg.p (upd x v (e.eval x / (den : Rat))) :=
+  affineImage_sound hS hv hwf hd hx
+
+example : (affineImage Cfg.int8 ⟨[⟨⟨fin 100, false⟩, ⟨fin 120, false⟩⟩], false, true⟩ 0 ⟨[2], 0⟩ 1).seq
+    = [⟨⟨fin 127, false⟩, ⟨pinf, false⟩⟩] := by decide +kernel
+
+/-- exactness where the C++ documents it: `var := ±var + n` on exact bounds (every policy without
+value infinities, `Rational_Box` in particular) returns EXACTLY the image — open, closed and infinite
+bounds included -/
+theorem box_affine_image_exact (cfg : Cfg) (hR : cfg.R = Rounding.id) (hm : cfg.p.mayContainInfinity = false) (b : Box)
+    (v : Nat) (s n : Int) (hs : s = 1 ∨ s = -1) (hv : v < b.dim) (y : Nat → Rat) :
+    (affineImage cfg b v ⟨List.replicate v 0 ++ [s], n⟩ 1).mem cfg.p y ↔
+      ∃ x, b.mem cfg.p x ∧ y = upd x v ((s : Rat) * x v + n) :=
+  affineImage_exact_shift_gen hR hm b v s n hs hv y
+
+/-- … and `var := n` (the interval of `var` on its own sides, which `OK()` demands) -/
+theorem box_affine_image_const_exact (cfg : Cfg) (hR : cfg.R = Rounding.id) (b : Box) (v : Nat) (n : Int) (hv : v < b.dim)
+    (hown : (b.get v).lo.value ≠ pinf ∧ (b.get v).hi.value ≠ ninf) (y : Nat → Rat) :
+    (affineImage cfg b v ⟨[], n⟩ 1).mem cfg.p y ↔ ∃ x, b.mem cfg.p x ∧ y = upd x v (n : Rat) :=
+  affineImage_exact_const_gen hR b v n hv hown y
+
+/-- `(0,2]` under `x := -x + 3` is `[1,3)`: `3` is not in the image -/
+example : ¬ (affineImage Cfg.mpq ⟨[⟨⟨fin 0, true⟩, ⟨fin 2, false⟩⟩], false, true⟩ 0 ⟨[-1], 3⟩ 1).mem Cfg.mpq.p (fun _ => 3) := by
+  have hv : (affineImage Cfg.mpq ⟨[⟨⟨fin 0, true⟩, ⟨fin 2, false⟩⟩], false, true⟩ 0 ⟨[-1], 3⟩ 1).get 0
+      = ⟨⟨fin 1, false⟩, ⟨fin 3, true⟩⟩ := by decide +kernel
+  intro h
+  have h1 := (h.2 0 (by decide)).2
+  rw [hv] at h1
+  have : upperOkV (fin 3) true (3 : Rat) := h1
+  simp at this
+
+/-- `affine_preimage(var, expr, den)`, invertible and non-invertible: `x` is in γ(result) whenever its
+image is in γ(box) -/
+theorem box_affine_preimage_sound (cfg : Cfg) (hS : cfg.Sound) (b : Box) (v : Nat) (e : LinExpr) (den : Int)
+    (x : Nat → Rat) (hv : v < b.dim) (hwf : e.WF b.dim) (hd : den ≠ 0)
+    (hx : b.mem cfg.p (upd x v (e.eval x / (den : Rat)))) : (affinePreimage cfg b v e den).mem cfg.p x :=
+  affinePreimage_sound hS hv hwf hd hx
+
+/-! ## generalized and bounded images / preimages, `unconstrain` -/
+
+/-- `generalized_affine_image(var, relsym, expr, den)`: full strength -/
+theorem box_generalized_affine_image_sound (cfg : Cfg) (hS : cfg.Sound) (b : Box) (v : Nat) (rel : Rel)
+    (e : LinExpr) (den : Int) (x : Nat → Rat) (y : Rat) (hv : v < b.dim) (hwf : e.WF b.dim) (hd : den ≠ 0)
+    (hrel : rel ≠ .ne) (hx : b.mem cfg.p x) (hy : Rel.holds rel y (e.eval x / (den : Rat))) :
+    (generalizedAffineImage cfg b v rel e den).mem cfg.p (upd x v y) :=
+  generalizedAffineImage_sound hS hv hwf hd hrel hx hy
+
+/-- `generalized_affine_image(lhs, relsym, rhs)`: `y` differs from `x ∈ γ(box)` on the variables of `lhs`
+only and `lhs(y) ⋈ rhs(x)`.  `_partial`: when `lhs` is a constant the code refines with `lhs ⋈ rhs`
+(`RefineSound`, false for `Double_Box`: `box_generalized_affine_image_lhs_sound_fails`); with one or
+more variables in `lhs` no condition. -/
+theorem box_generalized_affine_image_lhs_sound_partial (cfg : Cfg) (hS : cfg.Sound) (b : Box) (lhs rhs : LinExpr)
+    (rel : Rel) (x y : Nat → Rat) (hRef : lhs.terms = [] → RefineSound cfg) (hl : lhs.WF b.dim) (hr : rhs.WF b.dim)
+    (hrel : rel ≠ .ne) (hx : b.mem cfg.p x) (hag : AgreeOff lhs x y)
+    (hy : Rel.holds rel (lhs.eval y) (rhs.eval x)) : (generalizedAffineImageLhs cfg b lhs rel rhs).mem cfg.p y :=
+  generalizedAffineImageLhs_sound hS hRef hl hr hrel hx hag hy
+
+theorem box_generalized_affine_image_lhs_sound_fails :
+    ¬ (∀ (b : Box) (lhs rhs : LinExpr) (rel : Rel) (x y : Nat → Rat), lhs.WF b.dim → rhs.WF b.dim → rel ≠ .ne →
+      b.mem Cfg.dbl.p x → AgreeOff lhs x y → Rel.holds rel (lhs.eval y) (rhs.eval x) →
+      (generalizedAffineImageLhs Cfg.dbl b lhs rel rhs).mem Cfg.dbl.p y) := generalizedAffineImageLhs_sound_fails
+
+/-- three variables in `lhs`: all of them are unconstrained (the repaired loop) -/
+example : (generalizedAffineImageLhs Cfg.mpq (Box.univ Policy.rational 3 |>.setIv 1 ⟨⟨fin 2, false⟩, ⟨fin 2, false⟩⟩) ⟨[1, 1, 1], 0⟩ .le ⟨[], 0⟩).seq
+    = (Box.univ Policy.rational 3).seq := by decide +kernel
+
+/-- `bounded_affine_image(var, lb, ub, den)`.  `_partial`: the code refines with `lb ≤ ub` and with the
+bound that does not mention `var` (`RefineSound`; `box_bounded_affine_image_sound_fails`). -/
+theorem box_bounded_affine_image_sound_partial (cfg : Cfg) (hS : cfg.Sound) (hRef : RefineSound cfg) (b : Box)
+    (v : Nat) (lb ub : LinExpr) (den : Int) (x : Nat → Rat) (y : Rat) (hv : v < b.dim) (hlb : lb.WF b.dim)
+    (hub : ub.WF b.dim) (hd : den ≠ 0) (hx : b.mem cfg.p x) (h1 : lb.eval x / (den : Rat) ≤ y)
+    (h2 : y ≤ ub.eval x / (den : Rat)) : (boundedAffineImage cfg b v lb ub den).mem cfg.p (upd x v y) :=
+  boundedAffineImage_sound hS hRef hv hlb hub hd hx h1 h2
+
+theorem box_bounded_affine_image_sound_fails :
+    ¬ (∀ (b : Box) (v : Nat) (lb ub : LinExpr) (den : Int) (x : Nat → Rat) (y : Rat), v < b.dim → lb.WF b.dim →
+      ub.WF b.dim → den ≠ 0 → b.mem Cfg.dbl.p x → lb.eval x / (den : Rat) ≤ y → y ≤ ub.eval x / (den : Rat) →
+      (boundedAffineImage Cfg.dbl b v lb ub den).mem Cfg.dbl.p (upd x v y)) := boundedAffineImage_sound_fails
+
+/-- at full strength for exact temporaries -/
+theorem box_bounded_affine_image_sound_mpq (b : Box) (v : Nat) (lb ub : LinExpr) (den : Int) (x : Nat → Rat) (y : Rat)
+    (hv : v < b.dim) (hlb : lb.WF b.dim) (hub : ub.WF b.dim) (hd : den ≠ 0) (hx : b.mem Cfg.mpq.p x)
+    (h1 : lb.eval x / (den : Rat) ≤ y) (h2 : y ≤ ub.eval x / (den : Rat)) :
+    (boundedAffineImage Cfg.mpq b v lb ub den).mem Cfg.mpq.p (upd x v y) :=
+  boundedAffineImage_sound Cfg.mpq_sound refineSound_mpq hv hlb hub hd hx h1 h2
+
+/-- `bounded_affine_preimage(var, lb, ub, den)` WHEN IT RETURNS (`some`): `x` is in γ(result) whenever some
+`y` with `lb(x)/den ≤ y ≤ ub(x)/den` puts `x[var := y]` into γ(box); all sign cases of `den` and of the
+coefficients of `var`.  `_partial`: (i) the call must return — `box_bounded_affine_preimage_dies`; (ii) it
+refines with `lb ≤ ub` (`RefineSound`). -/
+theorem box_bounded_affine_preimage_sound_partial (cfg : Cfg) (hS : cfg.Sound) (hRef : RefineSound cfg) (b b' : Box)
+    (v : Nat) (lb ub : LinExpr) (den : Int) (x : Nat → Rat) (y : Rat)
+    (h : boundedAffinePreimage cfg b v lb ub den = some b') (hv : v < b.dim) (hlb : lb.WF b.dim) (hub : ub.WF b.dim)
+    (hd : den ≠ 0) (hx : b.mem cfg.p (upd x v y)) (h1 : lb.eval x / (den : Rat) ≤ y) (h2 : y ≤ ub.eval x / (den : Rat)) :
+    b'.mem cfg.p x := boundedAffinePreimage_sound hS hRef h hv hlb hub hd hx h1 h2
+
+/-- KF-C03-1: `A ∈ [0,1]`, `lb = A`, `ub = 5` (does not mention `A`), `den = 1`: the model reaches the division
+by the coefficient `0` of `A` in `ub` — the real `Rational_Box` dies with SIGFPE (`none`) -/
+theorem box_bounded_affine_preimage_dies :
+    boundedAffinePreimage Cfg.mpq ⟨[⟨⟨fin 0, false⟩, ⟨fin 1, false⟩⟩], false, true⟩ 0 ⟨[1], 0⟩ ⟨[0], 5⟩ 1 = none :=
+  boundedAffinePreimage_dies
+
+/-- so "every well-formed call returns a box containing the exact preimage" is false -/
+theorem box_bounded_affine_preimage_sound_fails :
+    ¬ (∀ (b : Box) (v : Nat) (lb ub : LinExpr) (den : Int), v < b.dim → lb.WF b.dim → ub.WF b.dim → den ≠ 0 →
+      ∃ b', boundedAffinePreimage Cfg.mpq b v lb ub den = some b') := by
+  intro h
+  obtain ⟨b', hb⟩ := h ⟨[⟨⟨fin 0, false⟩, ⟨fin 1, false⟩⟩], false, true⟩ 0 ⟨[1], 0⟩ ⟨[0], 5⟩ 1 (by decide)
+    (by simp [LinExpr.WF, Box.dim]) (by simp [LinExpr.WF, Box.dim]) (by decide)
+  rw [boundedAffinePreimage_dies] at hb
+  cases hb
+
+example : (boundedAffinePreimage Cfg.mpq ⟨[⟨⟨fin 0, false⟩, ⟨fin 1, false⟩⟩], false, true⟩ 0 ⟨[1], 0⟩ ⟨[1], 5⟩ 1).isSome = true := by
+  decide +kernel
+
+/-- `generalized_affine_preimage(var, relsym, expr, den)`: `x` is in γ(result) whenever some `y` with
+`y ⋈ expr(x)/den` puts `x[var := y]` into γ(box).  `_partial`: only the non-invertible case with a
+relation other than `=` refines (`RefineSound`; `box_generalized_affine_preimage_sound_fails`). -/
+theorem box_generalized_affine_preimage_sound_partial (cfg : Cfg) (hS : cfg.Sound) (b : Box) (v : Nat) (rel : Rel)
+    (e : LinExpr) (den : Int) (x : Nat → Rat) (y : Rat) (hRef : e.coeff v = 0 → rel ≠ .eq → RefineSound cfg)
+    (hv : v < b.dim) (hwf : e.WF b.dim) (hd : den ≠ 0) (hrel : rel ≠ .ne) (hx : b.mem cfg.p (upd x v y))
+    (hy : Rel.holds rel y (e.eval x / (den : Rat))) : (generalizedAffinePreimage cfg b v rel e den).mem cfg.p x :=
+  generalizedAffinePreimage_sound hS hRef hv hwf hd hrel hx hy
+
+theorem box_generalized_affine_preimage_sound_fails :
+    ¬ (∀ (b : Box) (v : Nat) (rel : Rel) (e : LinExpr) (den : Int) (x : Nat → Rat) (y : Rat), v < b.dim → e.WF b.dim →
+      den ≠ 0 → rel ≠ .ne → b.mem Cfg.dbl.p (upd x v y) → Rel.holds rel y (e.eval x / (den : Rat)) →
+      (generalizedAffinePreimage Cfg.dbl b v rel e den).mem Cfg.dbl.p x) := generalizedAffinePreimage_sound_fails
+
+/-- `generalized_affine_preimage(lhs, relsym, rhs)` (the repaired function: inf/sup of `lhs`, forget its
+variables, constrain `rhs`).  `_partial`: `RefineSound` (`…_lhs_sound_fails`). -/
+theorem box_generalized_affine_preimage_lhs_sound_partial (cfg : Cfg) (hS : cfg.Sound) (hRef : RefineSound cfg) (b : Box)
+    (lhs rhs : LinExpr) (rel : Rel) (x y : Nat → Rat) (hl : lhs.WF b.dim) (hr : rhs.WF b.dim) (hrel : rel ≠ .ne)
+    (hy : b.mem cfg.p y) (hag : AgreeOff lhs x y) (hh : Rel.holds rel (lhs.eval y) (rhs.eval x)) :
+    (generalizedAffinePreimageLhs cfg b lhs rel rhs).mem cfg.p x :=
+  generalizedAffinePreimageLhs_sound hS hRef hl hr hrel hy hag hh
+
+theorem box_generalized_affine_preimage_lhs_sound_fails :
+    ¬ (∀ (b : Box) (lhs rhs : LinExpr) (rel : Rel) (x y : Nat → Rat), lhs.WF b.dim → rhs.WF b.dim → rel ≠ .ne →
+      b.mem Cfg.dbl.p y → AgreeOff lhs x y → Rel.holds rel (lhs.eval y) (rhs.eval x) →
+      (generalizedAffinePreimageLhs Cfg.dbl b lhs rel rhs).mem Cfg.dbl.p x) := generalizedAffinePreimageLhs_sound_fails
+
+/-- `unconstrain(var)` / `unconstrain(vars)` (an undetected-empty interval marks the box empty) -/
+theorem box_unconstrain_sound (cfg : Cfg) (b : Box) (x y : Nat → Rat) (vars : List Nat) (hvars : ∀ v ∈ vars, v < b.dim)
+    (hx : b.mem cfg.p x) (hy : ∀ k, k ∉ vars → y k = x k) :
+    (unconstrainSet cfg b vars).mem cfg.p y ∧ ∀ v, v < b.dim → ∀ w, (unconstrain cfg b v).mem cfg.p (upd x v w) :=
+  ⟨unconstrainSet_sound hvars hx hy, fun v hv w => unconstrain_sound hv hx w⟩
+
+/-! ## `is_empty` caching, lattice operations, dimensions -/
+
+/-- `is_empty()`: `true` is right, the cache update does not change γ, and (bounds on their own
+sides, which `OK()` demands) `false` is right too -/
+theorem box_is_empty_sound (p : Policy) (b : Box) :
+    ((b.isEmptyQ p).1 = true → ∀ x, ¬ b.mem p x) ∧ (∀ x, (b.isEmptyQ p).2.mem p x ↔ b.mem p x) ∧
+    ((∀ I ∈ b.seq, I.lo.value ≠ pinf ∧ I.hi.value ≠ ninf) → (b.isEmptyQ p).1 = false → ∃ x, b.mem p x) :=
+  ⟨Box.isEmptyQ_true_sound, fun x => Box.isEmptyQ_mem_iff, Box.isEmptyQ_false_complete⟩
+
+theorem box_intersection_sound (cfg : Cfg) (hS : cfg.Sound) (b1 b2 : Box) (x : Nat → Rat) (hdim : b1.dim = b2.dim)
+    (h1 : b1.mem cfg.p x) (h2 : b2.mem cfg.p x) : (intersectionAssign cfg b1 b2).mem cfg.p x :=
+  intersectionAssign_sound hS hdim h1 h2
+
+theorem box_upper_bound_sound (cfg : Cfg) (hS : cfg.Sound) (b1 b2 : Box) (x : Nat → Rat) (hdim : b1.dim = b2.dim)
+    (h : b1.mem cfg.p x ∨ b2.mem cfg.p x) : (upperBoundAssign cfg b1 b2).mem cfg.p x :=
+  upperBoundAssign_sound hS hdim h
+
+theorem box_difference_sound (cfg : Cfg) (hS : cfg.Sound) (b1 b2 : Box) (x : Nat → Rat) (hdim : b1.dim = b2.dim)
+    (h1 : b1.mem cfg.p x) (h2 : ¬ b2.mem cfg.p x) : (PPLV.WR.BoxT.differenceAssign cfg b1 b2).mem cfg.p x :=
+  differenceAssign_sound hS hdim h1 h2
+
+theorem box_concatenate_sound (p : Policy) (b1 b2 : Box) (x y : Nat → Rat) (h1 : b1.mem p x) (h2 : b2.mem p y) :
+    (concatenateAssign b1 b2).mem p (fun k => if k < b1.dim then x k else y (k - b1.dim)) :=
+  concatenateAssign_sound h1 h2
+
+/-- `remove_higher_space_dimensions`: sound, and (the repair of KF-C04-29) a box that is empty because
+of an interval that is dropped stays empty -/
+theorem box_remove_higher_sound (cfg : Cfg) (b : Box) (nd : Nat) :
+    (∀ x, nd ≤ b.dim → b.mem cfg.p x → (removeHigherSpaceDimensions cfg b nd).mem cfg.p x) ∧
+    (nd < b.dim → (∃ I ∈ b.seq, isEmpty cfg.p I = true) → (removeHigherSpaceDimensions cfg b nd).markedEmpty = true) :=
+  ⟨fun x hnd hx => removeHigherSpaceDimensions_sound hnd hx, removeHigherSpaceDimensions_empty⟩
+
+example : (removeHigherSpaceDimensions Cfg.mpq ⟨[⟨⟨fin 1, false⟩, ⟨fin 1, false⟩⟩, Iv.empty], false, false⟩ 1).markedEmpty = true := by
+  decide +kernel
 
 end C03
